@@ -1,6 +1,6 @@
 #!/bin/bash
 # run every registered check (quick tier by default) on /repo's current working tree; one line per check
-cd /verif
+cd "$(dirname "$0")/.."
 TIER=${1:-quick}
 for p in $(python3 -c "import json; print(' '.join(c['property_id'] for c in json.load(open('MANIFEST.json'))['checks']))"); do
   out=$(./check run $p --tier $TIER 2>&1); rc=$?
